@@ -1412,13 +1412,16 @@ class GaussianState(State):
 
             return reduced_state.get_phaseshifter_expectation_value(reduced_angles)
 
-        D_phi = np.diag(1 / (np.tan(np_angles / 2)).repeat(2))
+        D_phi = np.diag(np.tile(1 / np.tan(np_angles / 2), 2))
 
         cov_D_phi = (cov + 1j * D_phi) / 2
 
         exponent = -(np.conj(mean) @ np.linalg.inv(cov_D_phi) @ mean) / 2
-        denominator = np.prod(1 - np.exp(1j * np_angles)) * np.sqrt(
-            np.linalg.det(cov_D_phi)
+        # NOTE: the eigenvalues of `cov_D_phi` have positive real parts (`cov` is
+        # positive definite, `D_phi` is real), hence the product of their principal
+        # square roots is the continuous branch of `sqrt(det(cov_D_phi))`.
+        denominator = np.prod(1 - np.exp(1j * np_angles)) * np.prod(
+            np.sqrt(np.linalg.eigvals(cov_D_phi))
         )
 
         return np.exp(exponent) / denominator
